@@ -51,6 +51,11 @@ pub struct FaultCtl {
     /// only leave when `send_poll_flush` is polled to completion.
     pub flush_required: bool,
     pub held: std::collections::VecDeque<Message>,
+    /// The broker's `Shutdown` has been handed to the receiver of this transport.
+    pub shutdown_seen: bool,
+    /// At the moment the fault fired: was it a send-side operation, had `Shutdown` been seen?
+    pub fired_on_send: bool,
+    pub shutdown_seen_at_fire: bool,
 }
 
 impl FaultCtl {
@@ -70,6 +75,9 @@ impl FaultCtl {
             trace: None,
             flush_required: false,
             held: std::collections::VecDeque::new(),
+            shutdown_seen: false,
+            fired_on_send: false,
+            shutdown_seen_at_fire: false,
         }
     }
 
@@ -95,6 +103,8 @@ impl FaultCtl {
             if hit {
                 self.failing = Some(mode);
                 self.fired = true;
+                self.fired_on_send = send;
+                self.shutdown_seen_at_fire = self.shutdown_seen;
                 return Err(err_of(mode));
             }
         }
@@ -183,6 +193,8 @@ impl AsyncTransport for Faulty {
                     ctl.ops += 1;
                     ctl.failing = Some(mode);
                     ctl.fired = true;
+                    ctl.fired_on_send = false;
+                    ctl.shutdown_seen_at_fire = ctl.shutdown_seen;
                     return Poll::Ready(Err(err_of(mode)));
                 }
             }
@@ -203,6 +215,9 @@ impl AsyncTransport for Faulty {
                     return Poll::Ready(Err(e));
                 }
                 ctl.received += 1;
+                if matches!(msg, Message::Shutdown(_)) {
+                    ctl.shutdown_seen = true;
+                }
                 let k = ctl.ops;
                 ctl.boundaries.push(k);
                 if let Some((name, log)) = &ctl.trace {
